@@ -685,14 +685,20 @@ def run_matrix(kind, order_seed, scratch, only=None):
         cells = only
     v = None
     n = 0
+    hist = {}
     try:
         for cell in cells:
-            cname = 'c%d' % rng.randrange(3)
+            # (a replay is the history of one client, played on one client)
+            cname = 'c0' if only is not None else 'c%d' % rng.randrange(3)
+            hist.setdefault(cname, []).append(cell)
             m.run_cell(cell, cname)
             n += 1
     except Violation as err:
         v = err
         v.detail['cell'] = cell
+        # what this client did before matters (its session survives from
+        # cell to cell): the replay is its whole history
+        v.detail['cells'] = hist[cname]
     return v, m, n, cells
 
 
@@ -943,7 +949,8 @@ class C14:
         only = task['ops'] if task.get('mode') == 'replay' else None
         v, m, n, cells = run_matrix(kind, task['seed'], task['scratch'],
                                     only)
-        ops_out = [v.detail['cell']] if v else []
+        ops_out = (v.detail.pop('cells', None) or [v.detail['cell']]) \
+            if v else []
         res = {'property': 'C14', 'seed': task['seed'],
                'config': {'kind': kind}, 'ops': ops_out,
                'violations': [v.as_dict()] if v else [],
